@@ -275,7 +275,7 @@ def runStep (w : World) (j : Json) : Except String (Except Err (Option Nat) × W
     let (r, w') := run (applyEdit (← asEdit j)) w
     return (r.map fun _ => none, w')
   | "wellFormed" =>
-    return (if wellFormed w then .ok none else .error (.raised "dangling pointer"), w)
+    return (if wellFormed w && usesBounded w then .ok none else .error (.raised "dangling pointer"), w)
   | op => throw s!"unknown step {op}"
 
 def handle : Handler := fun m j =>
